@@ -108,6 +108,78 @@ def col3(p, res):
     return n
 
 
+def sib3(p, res):
+    """the accumulate-subtract forms of the shifts (`vec_znx_lsh_sub`, `vec_znx_rsh_sub`) leave through the same trivial-case guards as the forms they mirror (`vec_znx_lsh`,
+    `vec_znx_rsh`): a decision one of whose arms returns without touching the carry chain compares the same two expressions in both siblings (same parameter order).  A guard
+    that is weaker in one sibling skips limbs of `a` that the other one still moves into the result."""
+    from .sym import Sym
+    from . import sc
+    n = 0
+    fns = {f.name: f for f in p.lib_fns() if f.blocks and f.kind != "Closure" and f.uid.startswith("poulpy_cpu_ref::reference::vec_znx::shift::")}
+
+    def canon(f, sym, pl, depth=0):
+        """rendering that does not depend on block numbers: a call is its callee and its arguments"""
+        import re
+        txt = repr(pl)
+        if depth > 3:
+            return txt
+        for a in pl.atoms():
+            if a[0] == "call" and a[1] == f.uid:
+                t = f.blocks[a[2]]["t"]
+                nm = (f.callee_def(t) or {}).get("n", "?")
+                sub = "%s(%s)%s" % (nm, ", ".join(canon(f, sym, sym.operand(x), depth + 1) for x in t["a"]), "".join("." + str(x) for x in a[3]) if len(a) > 3 else "")
+                txt = re.sub(r"call@bb%d(\.[0-9]+)*(?![0-9])" % a[2], lambda m: sub, txt)
+        return txt
+
+    def guards(f):
+        g = CFG(f)
+        flow = Flow(f)
+        sym = Sym(f, flow)
+        work = {bi for bi, t in f.calls() if "normalize" in (f.callee_def(t) or {}).get("n", "") or (f.callee_def(t) or {}).get("n", "") in ("znx_copy", "znx_sub_assign", "znx_add_assign")}
+        out = set()
+        for bi, blk in enumerate(f.blocks):
+            t = blk["t"]
+            if bi not in g.reach or not t or t["k"] != "Switch":
+                continue
+            for s2 in g.succ[bi]:
+                # an arm from which every way to the return avoids the carry chain
+                st, seen, clean, returns = [s2], set(), True, False
+                while st:
+                    b = st.pop()
+                    if b in seen:
+                        continue
+                    seen.add(b)
+                    if b in work:
+                        clean = False
+                        break
+                    if b in g.returns:
+                        returns = True
+                    st.extend(x for x in g.succ[b] if x in g.can_return())
+                if clean and returns:
+                    for r in flow.op_roots(t["o"]):
+                        if r[0] == "bin":
+                            stt = f.blocks[r[1]]["s"][r[2]][2]
+                            a, b = [canon(f, sym, sym.operand(o)) for o in stt["o"]]
+                            op = stt["op"]
+                            if op in ("Gt", "Ge") :
+                                op, a, b = {"Gt": "Lt", "Ge": "Le"}[op], b, a
+                            out.add((op, a, b))
+        return out
+    for base in ("vec_znx_lsh", "vec_znx_rsh"):
+        if base not in fns or base + "_sub" not in fns:
+            continue
+        n += 1
+        ga, gb = guards(fns[base]), guards(fns[base + "_sub"])
+        # the overwrite / add form may have more exits (zero fill); every exit of the subtracting form must be one of them, and the trivial-shift exit must exist in both
+        if gb and not gb <= ga:
+            res.bad("SIB-3", fns[base + "_sub"].pretty, "trivial-case-guard-differs", "%s leaves without touching the carry chain on %s, %s on %s: the guard of the subtracting form is not one "
+                    "of its sibling's, so for some shapes one of them drops limbs of `a` that the other still moves into the result"
+                    % (fns[base + "_sub"].pretty, sorted(gb), fns[base].pretty, sorted(ga)), site=fns[base + "_sub"].where())
+        else:
+            res.ok("SIB-3", {"pair": base, "guards": sorted(gb)})
+    return n
+
+
 def run(res, tier):
     res.level = "other"
     res.explanation = ("Only the shape clause of C02 is decided: for the noise-free GLWE operations every column 0..rank of the result is written by a HAL call on every path "
@@ -117,6 +189,7 @@ def run(res, tier):
     res.rule("COL-1", "noise-free core operations: result columns written in range loops whose union covers [0, res.rank()+1) for every assignment of ranks in a grid")
     res.rule("WR-1", "overwrite-type shape functions of the C02 files cover every limb")
     res.rule("WR-2", "column arguments honoured in the C02 files")
+    res.rule("SIB-3", "shift siblings (X, X_sub) leave through the same trivial-case guards")
     res.rule("SIB-1", "X_assign uses the in-place twins of the HAL operations of X")
     res.assumptions = ["HAL kernels compute the limb-wise map (C09)", "rank preconditions asserted by the operations hold"]
     cfgs = ["avx-dev"] if tier == "quick" else ["avx-dev", "ref-dev"]
@@ -151,6 +224,8 @@ def run(res, tier):
         res.floor("WR-2", "C02 shape functions with column accessors", n2, 20)
         ns = sib1(p, res)
         res.floor("SIB-1", "assign/out-of-place pairs", ns, 5)
+        n3s = sib3(p, res)
+        res.floor("SIB-3", "shift sibling pairs", n3s, 2)
         from . import rad
         res.rule("ROW-1", "row accessors of GGSW operations in a row loop: the loop bound stays within the object's dnum() under the comparisons that dominate the access")
         nrow = rad.row1(p, res, ("poulpy_core::operations", "poulpy_core::api::operations"))
